@@ -147,8 +147,8 @@ PROPS = {
         "level_note": "Real-time part uses wall-clock polls with a 3 s allowance; relative expiries are compared only when the wall-clock second did not change during the call. The expiry manager's nextExp is read through the verif-only accessor VerifNextExp. Trusted: Coq kernel + vm_compute, Go harness.",
         "assumptions": KV_ASSUME + ["an armed time.AfterFunc timer fires at its deadline (Go runtime)", "timer firings in the kv family are placed by the history (the real timer's callback is parked by the expiry.fire hook and the callback is run synchronously by 'expire' steps)"],
     },
-    "C19": _kv("C19", "Proved on the model's store, for every reachable store: the $_keyspace sub-query of a collection ranges over exactly the documents of that collection that have a body, with their current id, body and xattrs (C19_keyspace_is_live_docs), each once (C19_each_once); ORDER BY neither drops nor invents rows. A family of eight statements (ids, hex bodies, count, id filter, body-property filter, xattr-property filter, xattr projection, DESC/LIMIT) is evaluated in the model and compared exactly, row text for row text, with Collection.Query on in-memory (pre-recorded iterator) and on-disk (streaming iterator) buckets after arbitrary histories over three collections; the trace checker re-evaluates each query over the key-value read-back of the collection (acceptance of model traces checked by evaluation). SQLite's evaluator (json_valid, ->>, hex, ORDER BY, LIMIT) is modelled by eval_query, not verified.", model_chk=True),
-    "C12": _kv("C12", "Model of views.go/designdoc.go in Store.v: design documents, views.lastCas vs the collection's lastCas, incremental updateView (delete rows of documents with cas > views.lastCas, re-map them), cascade on purge/drop, JSON collation, startkey/endkey/inclusive_end/key/limit/descending, four JavaScript map functions with Gallina twins. The executable checker states the property directly - a non-stale query equals the map function applied to the key-value read-back of the collection's current documents, collated and filtered - and is evaluated on implementation traces and on the model's traces Proved for every reachable store of the model (ViewProofs.v, ViewInv.v; theorem C12_nonstale_query_is_map_of_current_docs): the invariant 'every document of a view's collection is indexed (its index rows are what the map function emits for its current version) or pending (cas > views.lastCas and the collection's lastCas differs from views.lastCas), and no row belongs to a document that no longer exists' holds initially and is preserved by every step (all key-value entry points by exhaustive case analysis of Kv.kstep, WithMeta resets, purge, create/drop, PutDDoc/DeleteDDoc, stale and non-stale queries, expiry, reopen); hence a non-stale query answers from an index holding, per document id, exactly the rows of a from-scratch evaluation, independent of the update history (C12_independent_of_update_history). The model's trace acceptance is additionally checked by evaluation on every run. View queries are placed anywhere in histories with deletes, resurrections, xattr-only writes, purges, WithMeta writes, design-document replacement through another handle, collection drop and reopen; results are compared exactly with the model. otto (JavaScript), SQLite's ORDER BY with the JSON collation and sg-bucket's ProcessParsed are modelled, not verified; reduce/group and keys=[...] are outside the modelled subset.", model_chk=True),
+    "C19": _kv("C19", "Proved on the model's store, for every reachable store: the $_keyspace sub-query of a collection ranges over exactly the documents of that collection that have a body, with their current id, body and xattrs (C19_keyspace_is_live_docs), each once (C19_each_once); ORDER BY neither drops nor invents rows. A family of thirteen statements (ids, hex bodies, count, id filter, body-property filters - one with an unsigned-integer argument -, xattr-property filter, system- and user-xattr projections, a NULL leading column, DESC/LIMIT, a four-way self-join returning n^4 rows; documents include 8-byte JSON bodies and xattrs, see fix d158c59) is evaluated in the model and compared exactly, row text for row text, with Collection.Query on in-memory (pre-recorded iterator) and on-disk (streaming iterator) buckets after arbitrary histories over three collections; the trace checker re-evaluates each query over the key-value read-back of the collection (acceptance of model traces checked by evaluation). SQLite's evaluator (json_valid, ->>, hex, ORDER BY, LIMIT) is modelled by eval_query, not verified.", model_chk=True),
+    "C12": _kv("C12", "Model of views.go/designdoc.go in Store.v: design documents, views.lastCas vs the collection's lastCas, incremental updateView (delete rows of documents with cas > views.lastCas, re-map them), cascade on purge/drop, JSON collation, startkey/endkey/inclusive_end/key/limit/descending, five JavaScript map functions (and their _count reduce variants) with Gallina twins. The executable checker states the property directly - a non-stale query equals the map function applied to the key-value read-back of the collection's current documents, collated and filtered - and is evaluated on implementation traces and on the model's traces Proved for every reachable store of the model (ViewProofs.v, ViewInv.v; theorem C12_nonstale_query_is_map_of_current_docs): the invariant 'every document of a view's collection is indexed (its index rows are what the map function emits for its current version) or pending (cas > views.lastCas and the collection's lastCas differs from views.lastCas), and no row belongs to a document that no longer exists' holds initially and is preserved by every step (all key-value entry points by exhaustive case analysis of Kv.kstep, WithMeta resets, purge, create/drop, PutDDoc/DeleteDDoc, stale and non-stale queries, expiry, reopen); hence a non-stale query answers from an index holding, per document id, exactly the rows of a from-scratch evaluation, independent of the update history (C12_independent_of_update_history). The model's trace acceptance is additionally checked by evaluation on every run. View queries are placed anywhere in histories with deletes, resurrections, xattr-only writes, purges, WithMeta writes, design-document replacement through another handle, collection drop and reopen; results are compared exactly with the model. otto (JavaScript), SQLite's ORDER BY with the JSON collation and sg-bucket's ProcessParsed are modelled, not verified; reduce/group and keys=[...] are outside the modelled subset.", model_chk=True),
     "C15": {
         "families": [{"family": "sched", "chk": "sched_excused_C15", "strict_chk": "sched_strict_C15"}, {"family": "ckpt"}],
         "level_text": "Partial. Feed.v models checkpointed feeds action by action (backfill from the persisted checkpoint + 1, registration, one callback at a time, terminator: the event already pulled is still delivered, the rest of the queue is discarded, the checkpoint document is written with the highest delivered CAS and is itself a mutation posted to the other feeds). The persisted checkpoint never exceeds a delivered CAS in any schedule (checked on every trace). The full completeness statement (every stop/restart placement, every interleaving with writers) is REFUTED on the faithful model with replayable witnesses (C15_skip_refuted: consequence of the known findings KF-C08-order and KF-C09-gap); outside those windows the sched family executes generated schedules of writers, stops (also with events still queued and writers mid-post) and resumes on the real code under the hooks and compares every delivery, CAS and checkpoint exactly with the model, and the union of the runs must contain every document.",
